@@ -201,6 +201,7 @@ static int vx_set_insert(volatile uint64_t* tab, int bits, uint64_t k) {
  * its end on default answers, so final oracles are evaluated). */
 static int vx_visited(uint64_t key) {
     if (vx_replaying) return 0;
+    if (vx_n < vx_prefix_n) return 0;       /* still replaying the prefix: these states belong to the parent execution */
     if (vx_noexpand_from >= 0) return 1;
     if (key == 0) key = 1;
     int leftD = vx_boundD - vx_usedD, leftP = vx_boundP - vx_usedP;
@@ -305,6 +306,17 @@ static void vx_end_exec(void) {
     vx_sh->inflight--;
     if (vx_me >= 0) vx_sh->slot[vx_me].busy = 0;
     pthread_mutex_unlock(&vx_sh->lock);
+}
+
+/* abandon the current execution from anywhere (deadlock, scheduler misuse): its violation and children are
+ * recorded, then the worker process is replaced (exit status 42 = "respawn me", not a crash) */
+static void vx_abort_exec(void) {
+    if (vx_replaying) {
+        printf("VX replay outcome=%016llx points=%d failed=%d\n", (unsigned long long)vx_obs_h, vx_n, vx_failed);
+        if (vx_failed) { printf("VX viol %s | ", vx_failsig); for (int i = 0; i < vx_trim(vx_ch, vx_n); i++) printf("%s%d", i ? "," : "", vx_ch[i]); printf("\n"); }
+        fflush(NULL); _exit(vx_failed ? 1 : 0);
+    }
+    vx_end_exec(); fflush(NULL); _exit(42);
 }
 
 static void vx_worker(void (*body)(void)) {
@@ -437,6 +449,12 @@ static int vx_main(int argc, char** argv, void (*init)(void), void (*body)(void)
             if (w == vx_nworkers) continue;
             int clean = WIFEXITED(st) && WEXITSTATUS(st) == 0 && !vx_sh->slot[w].busy;
             if (clean) { alive--; pids[w] = -1; continue; }
+            if (WIFEXITED(st) && WEXITSTATUS(st) == 42 && !vx_sh->slot[w].busy) {
+                fflush(NULL);
+                pid_t rp = fork();
+                if (rp == 0) { vx_me = w; vx_sh->slot[w].pid = getpid(); vx_redirect_stderr(w); vx_worker(body); }
+                pids[w] = rp; continue;
+            }
             /* died inside an execution: violation attributed to its published choice sequence */
             char sig[256], why[200];
             if (WIFEXITED(st) && WEXITSTATUS(st) == 3) { fprintf(stderr, "vx: engine error in worker %d\n", w); vx_sh->stop = 1; vx_sh->truncated = 2; }
